@@ -46,16 +46,16 @@ func (c20) ParentPhase(env *kernel.Env) kernel.PhaseResult {
 	scr := os.Getenv("VERIF_SCR")
 	raceNote, _ := os.ReadFile(filepath.Join(scr, "c20-race-note.txt"))
 	res.Coverage["race_detector"] = strings.TrimSpace(string(raceNote))
-	runs2, runs3 := 300, 24
+	runs2, runs2b, runs3 := 300, 100, 24
 	if env.Tier == "thorough" {
-		runs2, runs3 = 20000, 500
+		runs2, runs2b, runs3 = 20000, 1500, 500
 	}
 	type tier struct {
 		name, bin, sig string
 		runs           int
 	}
 	for _, t := range []tier{{"tier2_race_stubbed_exec", "c20stub", "generator.Formatters.FormatFile (tier 2: free-running, stubbed exec, -race)", runs2},
-		{"tier2b_race_saveoutputs", "c20save", "cmd.saveOutputs (tier 2b: free-running, stubbed exec, -race)", runs2},
+		{"tier2b_race_saveoutputs", "c20save", "cmd.saveOutputs (tier 2b: free-running, stubbed exec, -race, one process per batch)", runs2b},
 		{"tier3_race_real_processes", "c20real", "generator.Formatters.FormatFile (tier 3: unmodified code, real processes, -race)", runs3}} {
 		bin := filepath.Join(scr, "bin", t.bin)
 		if _, err := os.Stat(bin); err != nil {
